@@ -81,7 +81,7 @@ pub fn oracle_c06_dev(_op: &str, outs: &[String]) -> String {
         if o == "PANIC" || o == "HANG" || o.contains("STUCK") {
             return format!("FAIL:{}", o.split_whitespace().next().unwrap_or("?"));
         }
-        if o.starts_with("calls=tx(") {
+        if o.starts_with("calls=tx(") || o.starts_with("calls=txreq(") {
             if o.contains("up=UNPARSEABLE") || o.contains("up=BADMIC") || o.contains("up=FCNT16MISMATCH") || o.contains("up=UNDECRYPTABLE") {
                 return "FAIL:transmitted-frame-does-not-verify-under-the-session-counter".into();
             }
@@ -281,4 +281,240 @@ pub fn gen_random_dev_history(suite: &str, region: &str, rng: &mut Rng) -> Strin
         }
     }
     h.done()
+}
+
+
+// ------------------------------------------------------------------------------------ nb_device
+
+pub fn eval_nb(op: &str, oracle: fn(&str, &[String]) -> String) -> String {
+    let outs = crate::nbdev::run_history(op);
+    format!("{} ## oracle={}", outs.join(" ; "), oracle(op, &outs))
+}
+
+pub struct NHist {
+    pub a: AHist,
+    /// the events are executed on the real device while the line is built, to know its state: a radio
+    /// cannot report a reception while it is transmitting, so the generator must not script one
+    pub live: Option<crate::nbdev::NRunner>,
+    pub sending: bool,
+    pub dead: bool,
+}
+
+impl NHist {
+    pub fn new(suite: &str, region: &str, seed: u64, offset: i32, duration: u32) -> Self {
+        let mut a = AHist::new(suite, region, seed, 0, 0, false, 0);
+        a.line = format!("{} nbdev {} {} - {} {}", suite, region, seed, offset, duration);
+        let live = crate::nbdev::parse_header_pub(&a.line);
+        NHist { a, live, sending: false, dead: false }
+    }
+    pub fn ev(&mut self, e: &str) -> &mut Self {
+        self.a.ev(e);
+        if !self.dead {
+            if let Some(r) = self.live.as_mut() {
+                match std::panic::catch_unwind(std::panic::AssertUnwindSafe(|| r.step(e))) {
+                    Ok(Some(o)) => {
+                        if o.contains("UplinkSending(") {
+                            self.sending = true;
+                        } else if o.contains("TimeoutRequest(") || o.contains("Err(Radio)") && o.contains("txreq(") || o.contains("UnexpectedRadioResponse") {
+                            self.sending = false;
+                        }
+                    }
+                    _ => self.dead = true,
+                }
+            }
+        }
+        self
+    }
+    /// may the radio report a reception now?
+    pub fn can_rx(&self) -> bool {
+        !self.sending && !self.dead
+    }
+    pub fn rx_auth(&mut self, snr: i8, confirmed: bool, fopts: &[u8], fport: Option<u8>, payload: &[u8]) -> &mut Self {
+        if !self.can_rx() {
+            return self;
+        }
+        let item = self.a.auth_item(snr, 1, confirmed, fopts, fport, payload);
+        // item = R<snr>/<hex>/<view…> → `nradio rx <snr> <hex> <view…>`
+        let parts: Vec<&str> = item[1..].split('/').collect();
+        let e = format!("nradio rx {}", parts.join(" "));
+        self.ev(&e)
+    }
+    pub fn rx_bytes(&mut self, snr: i8, bytes: &[u8]) -> &mut Self {
+        if !self.can_rx() {
+            return self;
+        }
+        let item = self.a.frame_item(snr, bytes, None);
+        let parts: Vec<&str> = item[1..].split('/').collect();
+        let e = format!("nradio rx {}", parts.join(" "));
+        self.ev(&e)
+    }
+    pub fn done(&self) -> String {
+        self.a.done()
+    }
+}
+
+/// the full Class A cycle of the non-blocking device with a fault / odd radio answer at call `k`
+pub fn gen_nb_fault_histories(suite: &str, region: &str, rng: &mut Rng, out: &mut Vec<(String, &'static str)>) {
+    // radio calls of one cycle: txreq, phy(txdone), rxreq(rx1), [phy(rx)], cancel, rxreq(rx2), cancel
+    for variant in 0..3 {
+        for k in 0..8 {
+            for bad in ["E", "I"] {
+                if bad == "I" && k == 1 {
+                    continue; // an `Idle` answer to the TxDone interrupt is a radio-driver contract violation (the code panics by design)
+                }
+                let mut h = NHist::new(suite, region, rng.next() & 0xffff, *rng.pick(&[0i32, -20, 35]), *rng.pick(&[100u32, 3000]));
+                h.ev(&format!("abp {}", DEVADDR));
+                let mut call = 0;
+                let mut script_for = |n: usize, call: &mut usize| -> String {
+                    let mut items = vec![];
+                    for _ in 0..n {
+                        items.push(if *call == k { bad.to_string() } else { "O".to_string() });
+                        *call += 1;
+                    }
+                    if items.is_empty() {
+                        String::new()
+                    } else {
+                        format!(" | {}", items.join(" "))
+                    }
+                };
+                let s = script_for(1, &mut call);
+                h.ev(&format!("nsend 1 {} aa{}", (variant == 1) as u8, s));
+                let s = script_for(1, &mut call);
+                h.ev(&format!("nradio txdone 4711{}", s));
+                let s = script_for(1, &mut call);
+                h.ev(&format!("ntimeout{}", s));
+                if variant == 2 && h.can_rx() {
+                    let _ = script_for(1, &mut call);
+                    let b = rng.bytes(18);
+                    h.rx_bytes(0, &b);
+                }
+                let s = script_for(1, &mut call);
+                h.ev(&format!("ntimeout{}", s));
+                let s = script_for(1, &mut call);
+                h.ev(&format!("ntimeout{}", s));
+                if variant == 1 && h.can_rx() {
+                    let _ = script_for(1, &mut call);
+                    h.rx_auth(2, true, &[0x06], Some(7), &[1]);
+                }
+                let s = script_for(1, &mut call);
+                h.ev(&format!("ntimeout{}", s));
+                // whatever happened, drive the machine on and send again twice
+                h.ev("ntimeout").ev("ntimeout").ev("ntimeout").ev("snap");
+                h.ev("nsend 2 0 bbcc").ev("nradio txdone 9000").ev("ntimeout").ev("ntimeout").ev("ntimeout").ev("ntimeout").ev("snap");
+                h.ev("nsend 3 0 dd").ev("snap");
+                out.push((h.done(), "nb-fault-at-every-radio-call"));
+            }
+        }
+    }
+}
+
+pub fn gen_nb_random_history(suite: &str, region: &str, rng: &mut Rng) -> String {
+    let mut h = NHist::new(suite, region, rng.next() & 0xffffff, *rng.pick(&[0i32, -20, 35, 500]), *rng.pick(&[0u32, 100, 3000]));
+    if rng.chance(1, 5) {
+        h.ev("njoin");
+    } else {
+        h.ev(&format!("abp {}", DEVADDR));
+    }
+    let steps = 6 + rng.below(30);
+    let mut ts: u32 = 1000;
+    for _ in 0..steps {
+        let script = match rng.below(12) {
+            0 => " | E",
+            1 => " | I",
+            2 => " | D7000",
+            _ => "",
+        };
+        match rng.below(10) {
+            0 | 1 => {
+                let nb = rng.below(4) as usize;
+                let d = rng.bytes(nb);
+                h.ev(&format!("nsend {} {} {}{}", 1 + rng.below(200), rng.below(2), hex(&d), script));
+            }
+            2 | 3 => {
+                ts += rng.below(5000) as u32;
+                // an `Idle` answer while transmitting is a radio-driver contract violation (panics by design)
+                let script = if script == " | I" && h.sending { "" } else { script };
+                h.ev(&format!("nradio txdone {}{}", ts, script));
+            }
+            4 => {
+                let cmds = if rng.chance(1, 2) { some_cmds(rng, region, 15) } else { vec![] };
+                h.rx_auth(rng.range(-20, 20) as i8, rng.chance(1, 3), &cmds, Some(1 + rng.below(100) as u8), &[5]);
+            }
+            5 => {
+                let nb = rng.below(30) as usize;
+                let b = rng.bytes(nb);
+                h.rx_bytes(0, &b);
+            }
+            6 => {
+                h.ev("njoin");
+            }
+            _ => {
+                h.ev(&format!("ntimeout{}", script));
+            }
+        }
+        if rng.chance(1, 6) {
+            h.ev("snap");
+        }
+    }
+    h.ev("snap");
+    h.done()
+}
+
+/// C10 for the non-blocking device: t1 = delay + ts + offset, t2 = t1 + 1000 (join: +1000),
+/// window close = start + min(duration, gap)
+pub fn oracle_c10_nb(op: &str, outs: &[String]) -> String {
+    let hd: Vec<&str> = op.split(';').next().unwrap_or("").split_whitespace().collect();
+    let (offset, duration): (i64, i64) = (hd[5].parse().unwrap_or(0), hd[6].parse().unwrap_or(0));
+    let evs: Vec<&str> = op.split(';').skip(1).map(|s| s.trim()).collect();
+    let mut rx1d: i64 = 1000;
+    let mut join = false;
+    let mut expect_open: Option<i64> = None;
+    for (ev, o) in evs.iter().zip(outs.iter()) {
+        if o == "PANIC" || o == "HANG" {
+            return format!("FAIL:{}", o);
+        }
+        if let Some(s) = parse_snap(o) {
+            rx1d = s.rx1d as i64;
+        }
+        if ev.starts_with("njoin") && o.contains("txreq(") {
+            join = true;
+        }
+        if ev.starts_with("nsend") && o.contains("txreq(") {
+            join = false;
+        }
+        let tr: Option<i64> = o.split("TimeoutRequest(").nth(1).and_then(|x| x.split(')').next()).and_then(|x| x.parse().ok());
+        let ts_now: Option<i64> = if ev.starts_with("nradio txdone") {
+            ev.split_whitespace().nth(2).and_then(|x| x.parse().ok())
+        } else if ev.starts_with("nsend") || ev.starts_with("njoin") {
+            ev.split("| D").nth(1).and_then(|x| x.split_whitespace().next()).and_then(|x| x.parse().ok())
+        } else {
+            None
+        };
+        if let (Some(ts), Some(t)) = (ts_now, tr) {
+            if o.contains("phy") || o.contains("txreq(") {
+                let d1 = if join { 5000 } else { rx1d };
+                if t != d1 + ts + offset {
+                    return format!("FAIL:rx1-opens-at-{}-expected-{}", t, d1 + ts + offset);
+                }
+                expect_open = Some(t);
+            }
+        } else if let Some(t) = tr {
+            if o.contains("rxreq(") {
+                // window close
+                if let Some(open) = expect_open {
+                    if t < open || t > open + duration.max(1000) {
+                        return format!("FAIL:window-close-{}-for-open-{}", t, open);
+                    }
+                }
+            } else if o.contains("cancel") {
+                if let Some(open) = expect_open {
+                    if t != open + 1000 {
+                        return format!("FAIL:rx2-opens-at-{}-expected-{}", t, open + 1000);
+                    }
+                    expect_open = Some(t);
+                }
+            }
+        }
+    }
+    "ok".into()
 }
